@@ -93,6 +93,9 @@ THEOREMS = {
         ("HH.C08.history_ok", "∀ profile, ∀ chunk lists: appends then any finalize/checkpoint all return ok (induction)"),
         ("HH.C08.constructors_inv", "new/default/from_checkpoint(arbitrary) establish the invariant"),
         ("HH.C08.profiles_wide_enough", "the theorems apply to checks on/off and to 16-, 32-, 64-bit usize (all quantified over Profile with usize >= 16 bits)"),
+        ("HH.C08.sse_remainder_no_oob", "SSE remainder: every slice/index in range for every pending count (footprint model over exactly the slice)"),
+        ("HH.C08.avx_remainder_no_oob", "AVX2 remainder likewise"), ("HH.C08.neon_remainder_no_oob", "NEON remainder likewise"),
+        ("HH.C08.wasm_remainder_no_oob", "Wasm remainder (le_u64 indexing, slices) likewise"),
         ("HH.C08.legacy_debug_panic", "kernel-checked witness of the fixed defect: idx=32 panics in debug (shift overflow)"),
     ]),
     "C09": dict(module="HH.Props.C09", trusted=MODEL_TRUST + SIMD_TRUST + ["HH/Footprint.lean: the raw-pointer accesses of the back ends re-expressed over regions with unreadable bytes (validated by guard pages + Miri)", "mmap/mprotect guard pages, Miri's UB detection", "struct layout: measured in every build and checked against the alignment premises"], theorems=[
@@ -102,6 +105,7 @@ THEOREMS = {
         ("HH.C09.avx_remainder_in_bounds", "AVX2 remainder: aligned load + masked loads touch only the slice, given a 16-byte aligned buffer"),
         ("HH.C09.avx_remainder_misaligned_faults", "the alignment premise is necessary (misaligned buffer => the aligned load faults)"),
         ("HH.C09.neon_remainder_in_bounds", "NEON remainder: unchecked take::<8>/take::<4>/vld1q_u8 stay inside the slice"),
+        ("HH.C09.wasm_remainder_in_bounds", "Wasm remainder: le_u64 / slices / indices stay inside the slice"),
         ("HH.C09.avx_key_load", "AvxHash::force_new's aligned 32-byte key load: fine iff the key is 32-byte aligned"),
         ("HH.C09.fault_witness", "the model exhibits faults (16-byte load over a 15-byte slice abutting an unmapped byte)"),
     ]),
